@@ -23,20 +23,20 @@ RULE = ('Cases: one input set per case and command; the command is run once with
         'single-threaded result is also judged, so "all runs equally wrong" is not a pass.  Sample counts '
         '{1,2,9,10,19,20,21,39,40,45,70,79,80,150,165} for build (both sides of the 10-samples-per-thread rule, up to four levels of the recursive split) and a subset for align/map, sequence-file and .skf '
         'inputs for align and map, lo on isolated-variant and on clustered-variant/repeat/indel inputs.  The hook log gives the '
-        '(site, item, thread) sequence of every run; evidence reports distinct schedules per command.  Thorough adds a '
-        'ThreadSanitizer build of every parallel command.  Non-trivial: a command run with > 1 thread and > 1 parallel work '
+        '(site, item, thread) sequence of every run; evidence reports distinct schedules per command.  A ThreadSanitizer build '
+        'runs the parallel commands as well (quick: build, align, map, distance and lo with a reference on one input set each; thorough: every command on three).  Non-trivial: a command run with > 1 thread and > 1 parallel work '
         'item; distinct = distinct (command, inputs).')
 ASSUMPTIONS = ['schedules are perturbed (thread counts, jitter, pinning, sanitizer slow-down), not enumerated',
                'the permitted freedom per command is the one stated in the property']
 CMDS = ['build', 'align-fasta', 'align-skf', 'map-fasta', 'map-skf', 'distance', 'lo-ref', 'lo-free', 'lo-ref-clustered', 'lo-free-clustered']
 REQUIRED = {t: ['cmd:' + c for c in CMDS] + ['runs_compared', 'jitter_runs', 'pinned_runs', 'threads_above_cores',
-                                            'parallel_build_split_used'] for t in ('quick', 'thorough')}
+                                            'parallel_build_split_used', 'tsan_runs'] for t in ('quick', 'thorough')}
 SAMPLE_COUNTS = [1, 2, 9, 10, 19, 20, 21, 39, 40, 45, 70, 79, 80, 150, 165]     # 70/150: third/fourth level of the recursive split
 THREADS = [1, 2, 3, 4, 6, 8, 16, 32]
 
 
 def builds(tier):
-    return ['rel'] + (['tsan'] if tier == 'thorough' else [])
+    return ['rel', 'tsan']
 
 
 def plan(tier, seed, rng, scale):
@@ -51,9 +51,11 @@ def plan(tier, seed, rng, scale):
                 if cmd.startswith('align') or cmd.startswith('map'):
                     d['ns'] = max(2, d['ns'])
             descs.append(d)
-    if tier == 'thorough':
+    if True:
         for cmd in CMDS:
-            for i in range(3):
+            if tier == 'quick' and cmd in ('align-skf', 'lo-free', 'lo-free-clustered', 'map-skf'):
+                continue
+            for i in range(3 if tier == 'thorough' else 1):
                 descs.append({'cmd': cmd, 'seed': rng.getrandbits(32), 'nruns': 3, 'tsan': True,
                               'ns': [20, 40, 21][i] if not cmd.startswith('lo') and cmd != 'distance' else None})
     return descs
